@@ -1,6 +1,7 @@
 import RedactVerif.Proofs.Scan
 import RedactVerif.Proofs.Tokens
 import RedactVerif.Props.FactsConsts
+import RedactVerif.Props.TransMarkers
 /-
 C07 — Redact and StripMarkers are exact, idempotent projections.
 
@@ -291,5 +292,18 @@ theorem redactT_append_wf (a b : List Tok) (ha : WF a) : redactT (a ++ b) = reda
 example : WF (tokenize ([0x61] ++ startB ++ [0x62, 0x0A] ++ endB ++ [0x63])) := by decide
 example : redact ([0x61] ++ startB ++ [0x62, 0x0A] ++ endB ++ [0x63]) = [0x61] ++ redactedB ++ [0x63] := by decide
 example : redact (startB ++ [0x61] ++ startB ++ [0x62] ++ endB ++ endB) = startB ++ [0x61] ++ redactedB ++ endB := by decide
+
+/-! ### On the functions as the translator reads them off `internal/markers/markers.go` on every run
+(equality with the model: Props/TransMarkers.lean) -/
+
+/-- `Redact()` read at token level is `redactT` — the function the theorems above are about. -/
+theorem translated_redact_tokens (s : List Byte) : Trans.MS_Redact s = untok (redactT (tokenize s)) := by
+  rw [ms_redact]; rfl
+
+/-- `StripMarkers()` removes exactly the delimiters of the token reading. -/
+theorem translated_strip_tokens (s : List Byte) : Trans.MS_StripMarkers s = untok ((tokenize s).filter (fun x => !x.isMarker)) := by
+  rw [ms_stripMarkers, ← stripT_eq_filter]; rfl
+
+example : Trans.MS_Redact ([0x61] ++ startB ++ [0x62, 0x0A] ++ endB ++ [0x63]) = [0x61] ++ redactedB ++ [0x63] := by decide
 
 end Redact
